@@ -101,6 +101,7 @@ impl SimInit {
             &self.executor,
             &self.abort_signal,
             &mut self.model_names,
+            &mut self.observers,
         );
 
         self
